@@ -2,10 +2,104 @@ import ShelxModel.JsonUtil
 import ShelxModel.C12
 open Lean Shelx.J
 
+/-
+  C12 driver.  One request = one cell with points, point pairs and U tensors:
+    {"p":"C12","op":"cell","cell":[a,b,c,al,be,ga],"pts":[[x,y,z]…],"pairs":[[[x,y,z],[x,y,z]]…],"us":[[U11,U22,U33,U23,U13,U12]…]}
+  Answer: model (Float instance of the mirrored code) and spec (metric-tensor reference in Float; the
+  positive-definiteness decisions exactly in Rat on the decimal file values).
+-/
 namespace Shelx.Drv.C12
+open Shelx.C12
+
+/-- `math.radians`: `x * (pi / 180)` -/
+def radians (x : Float) : Float := x * (3.141592653589793 / 180.0)
+
+def cellOf (l : List Float) : Except String (Cell Float) :=
+  match l with
+  | [a, b, c, al, be, ga] =>
+    .ok { a := a, b := b, c := c,
+          ca := Float.cos (radians al), cb := Float.cos (radians be), cg := Float.cos (radians ga),
+          sa := Float.sin (radians al), sb := Float.sin (radians be), sg := Float.sin (radians ga) }
+  | _ => err "C12: cell needs six numbers"
+
+def v3Of (l : List Float) : Except String (V3 Float) :=
+  match l with
+  | [x, y, z] => .ok ⟨x, y, z⟩
+  | _ => err "C12: point needs three numbers"
+
+def u6Of {K} (l : List K) : Except String (U6 K) :=
+  match l with
+  | [a, b, c, d, e, f] => .ok ⟨a, b, c, d, e, f⟩
+  | _ => err "C12: U needs six numbers"
+
+def ofV3 (v : V3 Float) : Json := ofFloats [v.x, v.y, v.z]
+def ofM3 (m : M3 Float) : Json := Json.arr #[ofV3 m.r0, ofV3 m.r1, ofV3 m.r2]
+def ofOptV3 : Option (V3 Float) → Json
+  | none => Json.null
+  | some v => ofV3 v
+
+def fsqrt : Float → Float := Float.sqrt
+def fzero (x : Float) : Bool := x == 0.0
+
+def ratAbs (x : Rat) : Rat := if x < 0 then -x else x
 
 def handle (j : Json) : Except String Json := do
   let op ← strField j "op"
-  err s!"C12: unknown op {op}"
+  match op with
+  | "cell" =>
+    let cl ← field j "cell" >>= floats
+    let c ← cellOf cl
+    let pts ← (← arrField j "pts").mapM (fun p => floats p >>= v3Of)
+    let pairs ← (← arrField j "pairs").mapM (fun p => do
+      match ← arr p with
+      | [p1, p2] => return (← floats p1 >>= v3Of, ← floats p2 >>= v3Of)
+      | _ => err "C12: pair needs two points")
+    let usF ← (← arrField j "us").mapM (fun p => floats p >>= u6Of)
+    let usQ ← (← arrField j "us").mapM (fun p => rats p >>= u6Of)
+    -- model ---------------------------------------------------------------------------------------
+    let m := orthoM fsqrt c
+    let mi := inversed m
+    let n := nMat fsqrt c
+    let rc := recip fsqrt c
+    -- spec ----------------------------------------------------------------------------------------
+    let g := metric c
+    let r := cholUpper fsqrt g
+    let rsq := recipSqSpec g
+    let nS : V3 Float := ⟨fsqrt rsq.x, fsqrt rsq.y, fsqrt rsq.z⟩
+    let ptJ := pts.map fun p =>
+      let xc := mulVec m p
+      let xm := fracToCartMisc fsqrt c p
+      Json.mkObj [("cart", ofV3 xc), ("cart_misc", ofV3 xm),
+                  ("back_inv", ofV3 (mulVec mi xc)), ("back_misc", ofV3 (cartToFracMisc fsqrt c xm)),
+                  ("spec_cart", ofV3 (mulVec r p)), ("spec_len", ofFloat (fsqrt (quad g p)))]
+    let pairJ := pairs.map fun (p1, p2) =>
+      Json.mkObj [("dist", ofFloat (atomicDistance fsqrt c p1 p2)),
+                  ("spec", ofFloat (fsqrt (quad g (vsub p1 p2))))]
+    let uJ := (usF.zip usQ).map fun (u, q) =>
+      let uc := ucart m n (ucif u)
+      let ev := eigenvals fsqrt fzero 100 uc
+      let npdOld : Json := match ev with
+        | none => Json.str "ZeroDivisionError"
+        | some e => Json.bool (e.x <= 0.0 || e.y <= 0.0 || e.z <= 0.0)
+      let mn := npdMinors uc
+      let npd : Bool := !(mn.x > 0.0 && mn.y > 0.0 && mn.z > 0.0)
+      let scale := (ratAbs q.u11 + ratAbs q.u22 + ratAbs q.u33) / 3
+      let delta : Rat := scale / 1000000000
+      let d := minors q
+      Json.mkObj [("ucart", ofM3 uc), ("ueq_aniso", ofFloat (ueqAniso fsqrt c u)),
+                  ("ueq_old", ofFloat (ueqAnisoOld fsqrt c u)), ("ucart_old", ofM3 (ucartOld m n (ucif u))),
+                  ("iso_branch", Json.bool (isoBranch q)), ("iso_branch_old", Json.bool (isoBranchOld q)),
+                  ("eig_old", ofOptV3 ev), ("npd_old", npdOld), ("npd", Json.bool npd), ("npd_minors", ofV3 mn),
+                  ("spec_ueq", ofFloat (ueqSpec g nS u)),
+                  ("spec_pd", Json.bool (sylvesterPD q)),
+                  ("spec_pd_lo", Json.bool (sylvesterPD (shiftU q (-delta)))),
+                  ("spec_pd_hi", Json.bool (sylvesterPD (shiftU q delta))),
+                  ("minors", ofRats [d.x, d.y, d.z])]
+    return Json.mkObj [
+      ("V", ofFloat (volume fsqrt c)), ("M", ofM3 m), ("Minv", ofM3 mi), ("det", ofFloat (det m)),
+      ("metric_code", ofM3 (metricCode fsqrt c)), ("recip", ofV3 rc),
+      ("spec_G", ofM3 g), ("spec_V", ofFloat (fsqrt (gramDet g))), ("spec_M", ofM3 r), ("spec_recip", ofV3 nS),
+      ("pts", Json.arr ptJ.toArray), ("pairs", Json.arr pairJ.toArray), ("us", Json.arr uJ.toArray)]
+  | _ => err s!"C12: unknown op {op}"
 
 end Shelx.Drv.C12
